@@ -69,6 +69,31 @@ CLAIMED = {
         note='trusted: z3, engine models (replayed per path); openResource is replaced by in-memory '
              'resources; validator.main is not driven; known finding F7 (include cycle -> RecursionError)',
         ref='DESIGN.md section 7 C07'),
+    'C05': dict(
+        text='For define / use / include sequences with symbolic names (case variants, illegal names) and '
+             'symbolic raw values (nested references, $$, malformed constructs) z3 shows on every path of '
+             'the real loader that the values seen by keys, the acceptance of re-definitions and the error '
+             'family equal what the reference define rules give; included resources share the namespace, '
+             'a second load against the same schema object starts empty.',
+        note='trusted: z3, engine models (replayed per path), vf/oracles/linegrammar.py (define rules) and '
+             'conformance.py; in-memory include resources; sequences of at most 4 lines',
+        ref='DESIGN.md section 7 C05'),
+    'C06': dict(
+        text='Differential: on every path z3 shows that the real loader gives equal value trees (or rejects '
+             'both) for a text with balanced line ranges moved into included in-memory resources (same / '
+             'sub / parent directory, nested cuts) and for the inlined text, with the same symbolic tokens; '
+             'fragments that are unbalanced with respect to section nesting are rejected.',
+        note='trusted: z3, engine models (replayed per path); the oracle is the real code on the inlined '
+             'spelling; openResource replaced by in-memory resources; include arguments concrete',
+        ref='DESIGN.md section 7 C06'),
+    'C08': dict(
+        text='For valid texts (main and included resources) in which one line carries symbolic tokens, z3 '
+             'shows on every rejecting path that the raised error carries the 1-based number - within its own '
+             'resource - and the URL of the line the reference oracle holds responsible, for <t>..</t> and '
+             '<t/> alike; conversion errors also carry the offending text and a ValueError instance.',
+        note='trusted: z3, engine models (replayed per path), line attribution in vf/oracles; top-level '
+             'requirements unmet at end of input, %import failures and unopenable resources are not asserted',
+        ref='DESIGN.md section 7 C08'),
 }
 
 NOT_YET = 'harness not built yet in this revision (see DESIGN.md section 7 for the plan)'
